@@ -324,8 +324,16 @@ def annotate_fn(text, ann, clauses, fname):
                     pos = cb
                 ins.append((pos, 0, w + '\n'))
     exp = ann.get('expect')
+    if exp and exp.get('contains'):
+        # literals the proof is indexed against (direction tables): if they were edited the proof does not apply
+        flat = ' '.join(text.split())
+        for lit in exp['contains']:
+            if ' '.join(lit.split()) not in flat:
+                raise LostAnchor('%s: expected literal %r not found (table edited or reordered: the index-wise proof does not apply)' % (fname, lit))
     if exp:
         for k in exp:
+            if k == 'contains':
+                continue
             if exp[k] != fingerprint.get(k):
                 raise LostAnchor('%s: structural fingerprint changed (%s: expected %r, found %r)' % (fname, k, exp[k], fingerprint.get(k)))
     out = text
